@@ -617,6 +617,7 @@ func runC14(c *fw.Ctx) {
 	c.Cases("pinned", len(pins), true, func(i int, r *rng.R) { c14Case(c, r, pins[i]) })
 	c.Cases("mutating-callbacks", c.N(400, 100000), false, func(i int, r *rng.R) { c14Mutating(c, r) })
 	c.Cases("panicking-callbacks", c.N(400, 100000), false, func(i int, r *rng.R) { c14Panicking(c, r) })
+	c.Cases("scratch-reuse", c.N(300, 50000), false, func(i int, r *rng.R) { c14Scratch(c, r) })
 	c.Cases("containers", c.N(2000, 1000000), false, func(i int, r *rng.R) {
 		// several elements of each kind interleaved, none of a kind, neighbours of look-alike kinds, empty
 		root := spec.List
@@ -962,6 +963,123 @@ func c14Panicking(c *fw.Ctx, r *rng.R) {
 			c.Violate("view-wrong:callback-panic-swallowed", in(), fmt.Sprintf("the panic reaches the caller, or the returned result covers all %d selected elements", want), fmt.Sprintf("the call returned normally with %d entries", got))
 		}
 	})
+}
+
+// c14Scratch: a mapping function that hands back the SAME native slice / map every time, refilled for each element (a
+// scratch buffer). What the result holds for element i is what the function returned for element i at that moment: the
+// library takes its copy when it is given the value (C13: no storage shared with the Go value a container was built from).
+func c14Scratch(c *fw.Ctx, r *rng.R) {
+	n := r.Range(2, 6)
+	view := r.Intn(8)
+	useMap := r.Bool()
+	names := []string{"List.Map", "List.MapValues", "List.MapInts", "List.MapStrings", "Object.Map", "Object.MapValues", "Object.MapInts", "Object.MapStrings"}
+	in := func() string {
+		return fmt.Sprintf("%s over %d elements with a function that returns one reused scratch %s", names[view], n, map[bool]string{true: "map", false: "slice"}[useMap])
+	}
+	guard(c, in, func() {
+		c.Distinct(in())
+		c.Count("scratch_reuse_cases")
+		l := at.NewList()
+		o := at.NewObject()
+		for i := 0; i < n; i++ {
+			l.Add(i, fmt.Sprintf("s%d", i))
+			o.Set(fmt.Sprintf("i%d", i), i, fmt.Sprintf("s%d", i), fmt.Sprintf("s%d", i))
+		}
+		scratchS := make([]any, 2)
+		scratchM := map[string]any{}
+		give := func(tagv any) any {
+			if useMap {
+				for k := range scratchM {
+					delete(scratchM, k)
+				}
+				scratchM["v"] = tagv
+				return scratchM
+			}
+			scratchS[0], scratchS[1] = tagv, "x"
+			return scratchS
+		}
+		wantOf := func(tagv any) string {
+			if useMap {
+				return spec.ObjV("v", specOfScalar(tagv)).Canon()
+			}
+			return spec.ListV(specOfScalar(tagv), spec.StrV("x")).Canon()
+		}
+		var resL at.List
+		var resO at.Object
+		switch view {
+		case 0:
+			resL = l.Map(func(i int, v any) any { return give(v) })
+		case 1:
+			resL = l.MapValues(func(v any) any { return give(v) })
+		case 2:
+			resL = l.MapInts(func(v int) any { return give(v) })
+		case 3:
+			resL = l.MapStrings(func(v string) any { return give(v) })
+		case 4:
+			resO = o.Map(func(k string, v any) any { return give(v) })
+		case 5:
+			resO = o.MapValues(func(v any) any { return give(v) })
+		case 6:
+			resO = o.MapInts(func(v int) any { return give(v) })
+		default:
+			resO = o.MapStrings(func(v string) any { return give(v) })
+		}
+		if resL != nil {
+			var src []any
+			switch view {
+			case 2:
+				for i := 0; i < n; i++ {
+					src = append(src, i)
+				}
+			case 3:
+				for i := 0; i < n; i++ {
+					src = append(src, fmt.Sprintf("s%d", i))
+				}
+			default:
+				src = l.Slice()
+			}
+			if resL.Count() != len(src) {
+				c.Violate("view-wrong:scratch-result", in(), fmt.Sprintf("%d results", len(src)), fmt.Sprintf("%d results", resL.Count()))
+				return
+			}
+			for i, v := range src {
+				if got := stringCanon(resL.Get(i)); got != wantOf(v) {
+					c.Violate("view-wrong:scratch-result", in(), fmt.Sprintf("result %d is what the function returned for element %v: %s", i, v, wantOf(v)), got)
+					return
+				}
+			}
+			return
+		}
+		for _, k := range o.Keys().StringSlice() {
+			v := o.Get(k)
+			_, isInt := v.(int)
+			if (view == 6 && !isInt) || (view == 7 && isInt) {
+				continue
+			}
+			if !resO.KeyExists(k) {
+				c.Violate("view-wrong:scratch-result", in(), "a result under the key "+k, "missing")
+				return
+			}
+			if got := stringCanon(resO.Get(k)); got != wantOf(v) {
+				c.Violate("view-wrong:scratch-result", in(), fmt.Sprintf("result under %q is what the function returned for the value %v: %s", k, v, wantOf(v)), got)
+				return
+			}
+		}
+	})
+}
+
+func specOfScalar(v any) *spec.Spec {
+	switch x := v.(type) {
+	case int:
+		return spec.IntV(x)
+	case string:
+		return spec.StrV(x)
+	case float64:
+		return spec.FloatV(x)
+	case bool:
+		return spec.BoolV(x)
+	}
+	return spec.NilV()
 }
 
 func c14Case(c *fw.Ctx, r *rng.R, tree *spec.Spec) {
